@@ -1,15 +1,4 @@
 #!/bin/sh
-# tools/try_refactor.sh <patch.diff> : apply a behaviour-preserving change to /repo, run ALL quick checks, restore /repo.
+# tools/try_refactor.sh <patch.diff> : run ALL quick checks against a behaviour-preserving change applied to a scratch copy of /repo/src.
 # Any VIOLATION / ANALYSIS-ERROR / non-zero exit here is a false alarm of the machinery.
-P="$1"
-cd /repo || exit 2
-git diff --quiet || { echo "/repo is dirty"; exit 2; }
-git apply "$P" || { echo "patch does not apply"; exit 2; }
-bad=0
-for i in 01 02 03 04 05 06 07 08 09 10 11 12 13 14 15 16 17 18 19 20; do
-  out=$(cd /verif && ./check C$i quick --no-evidence 2>&1); rc=$?
-  if [ $rc -ne 0 ]; then bad=1; echo "C$i exit=$rc"; echo "$out" | grep -E "VIOLATION|rule R|ANALYSIS|violat" | head -8; fi
-done
-git checkout -- .
-[ $bad -eq 0 ] && echo "OK $P: all 20 checks silent"
-exit $bad
+exec /verif/tools/try_patch.py "$1"
